@@ -275,6 +275,10 @@ class ConcRun:
     mode = 'conc'
 
     def __init__(self, inputs, ufs, cfg):
+        inputs = dict(inputs)
+        # decimal variant j of a model: every real input is moved to a nearby two-decimal value (solver models sit on dyadic points, where float
+        # arithmetic is exact; decimals expose IEEE rounding in the real code)
+        self.decimal = int(inputs.pop('__decimal__', 0) or 0)
         self.inputs = {k: _unser(v) for k, v in inputs.items()}
         self.ufs = {k: [([float(_unser(a)) for a in args], float(_unser(r))) for args, r in tab] for k, tab in (ufs or {}).items()}
         self.cfg = cfg
@@ -284,7 +288,13 @@ class ConcRun:
 
     def real(self, name, lo, hi):
         if name in self.inputs:
-            return float(self.inputs[name])
+            v = float(self.inputs[name])
+            if self.decimal:
+                j = self.decimal
+                v2 = round(v * (1.0 + 0.0173 * j) + 0.0137 * j, 2)
+                if float(lo) <= v2 <= float(hi):
+                    return v2
+            return v
         self.missing.append(name)
         return float(lo)
 
@@ -479,7 +489,7 @@ def explore(module, hname, cfg, max_paths=200000, max_seconds=3600, timeout_ms=1
                 if m is not None:
                     m = ctx.lattice_model(z3.BoolVal(True)) or m
                     inputs, ufs = ctx.model_inputs(m)
-                    st['witnesses'].append(dict(inputs={k: _ser(x) for k, x in inputs.items()},
+                    st['witnesses'].append(dict(deferred=bool(deferred), inputs={k: _ser(x) for k, x in inputs.items()},
                                                 ufs={k: [[[_ser(a) for a in args], _ser(r)] for args, r in tab] for k, tab in ufs.items()}))
             except Exception:
                 pass
